@@ -496,7 +496,7 @@ Proof. vm_compute. repeat split; reflexivity. Qed.
 
 Lemma c08_nonvacuous_lemma :
   itoa_int (-2147483648) 10 = Some [45; 50; 49; 52; 55; 52; 56; 51; 54; 52; 56] /\
-  int_roundtrip 2147483647 = Some ([50; 49; 52; 55; 52; 56; 51; 54; 52; 55], 2147483647) /\
+  int_roundtrip (-2147483648) = Some ([45; 50; 49; 52; 55; 52; 56; 51; 54; 52; 56], AR_ok (-2147483648)) /\
   fst (float_roundtrip (f_of_Z (-2147483647)) 9) =
     DT_text [45; 50; 49; 52; 55; 52; 56; 51; 54; 52; 55; 46; 48].
 Proof. vm_compute. repeat split; reflexivity. Qed.
